@@ -5,3 +5,17 @@ reg("C01", "DESIGN.md#2", "abstract interpretation of executor status cells + wh
     "Exhaustive over the enumerated cells and paths of the loop-free executor code.",
     "Does not decide which status cell a real history/crash/schedule produces, nor value equality; trusts the applicability table "
     "(which statuses the service can hold per operation type) and the interpreter's seed tables for user callables.")
+reg("C02", "DESIGN.md#3", "abstract interpretation: first-failure vs replay exception classes, serdes symmetry, provenance",
+    "Decides exception-class agreement between the trace that first records a failure and the FAILED-cell trace, serializer-expression "
+    "symmetry between record and replay, that every SUCCEED payload is the serialisation of the returned value, status-independence of "
+    "create_callback, and error-field provenance. Exhaustive over the enumerated cells.",
+    "Does not decide value equality after a round trip (runtime quantity); assumes deterministic user code; classes the wrapper re-raises are exempt.")
+reg("C03", "DESIGN.md#4", "abstract interpretation with checkpoint-fault injection + CFG dominance on the consumer loop",
+    "Decides, on every path of every non-terminal executor cell with a failure injected at every checkpoint, that an accepted synchronous "
+    "record precedes return / final raise / suspend; that create_checkpoint waits on the very event it enqueued; that in the consumer the API "
+    "call and the merge of its response dominate every success release; FIFO queue construction; wrapper large-result ordering.",
+    "Thread interleavings are not explored: the halves are composed by an assume/guarantee argument over stdlib Queue/Event semantics.")
+reg("C04", "DESIGN.md#5", "abstract interpretation of the step executor per status cell and step semantics",
+    "Decides for the at-most-once mode that every path reaching the step function carries an accepted synchronous START issued earlier in the "
+    "same call, that a STARTED attempt is routed to the retry strategy as interrupted, and that a START not confirmed as STARTED aborts.",
+    "Assumes the backend's attempt counter / READY->STARTED transitions; crash points themselves are not enumerated (the rule is per path).")
